@@ -78,8 +78,8 @@ type Config struct {
 	PoolFreshPct int
 	PoolAnyPct   int
 	PoolDropPct  int
-	FPYieldPct   int // percent of FP sites that are yield points in this run (0: none)
-	ClockVaryPct int // percent of clock reads that see a non-canonical step (stall, fine step, jump)
+	FPYieldPct   int  // percent of FP sites that are yield points in this run (0: none)
+	ClockVaryPct int  // percent of clock reads that see a non-canonical step (stall, fine step, jump)
 	CPUVary      bool // the CPU count the library is told differs from the canonical 4
 
 	// failpoint panic: the PanicAtHit-th FP hit (1-based, counted among
